@@ -10,6 +10,7 @@ Pipeline (every run, from the repo's current working tree):
      Monitors/SMm.v evaluated on the IMPLEMENTATION's observations (vm_compute).
 """
 import ast
+import json
 import os
 import re
 import subprocess
@@ -114,7 +115,7 @@ def parse_items(s):
     return [[int(x) for x in it.split()] for it in s.split(";")]
 
 
-def run_harness(c, binary, cases, traces):
+def run_harness(c, binary, cases, traces, patient=False):
     """Runs the real state machine on every trace. Returns per trace a list of (sm_items, cm_items);
     the event at which the harness died carries ([[20, site]], []) (or [[23]] when it blocked)."""
     lines = []
@@ -124,6 +125,7 @@ def run_harness(c, binary, cases, traces):
             lines.append(" ".join(str(x) for x in ev))
     # index of the first input line of each trace
     results = [None] * len(traces)
+    c.sm_cut = {}          # index (in this call) -> number of events compared, for histories that ended in a shutdown panic
     start = 0
     restarts = 0
     stderr_tail = ""
@@ -133,7 +135,10 @@ def run_harness(c, binary, cases, traces):
             inp.append("0 %d %d" % (i, cases[i][0]))
             for ev, _ in traces[i]:
                 inp.append(" ".join(str(x) for x in ev))
-        rc, out, err = c.run_bin(binary, stdin="\n".join(inp) + "\n", timeout=600)
+        # patient: the re-run of a suspect history waits much longer for a dying process / a busy kernel (a loaded
+        # machine must not turn into a disagreement; a deterministic defect fails however long the harness waits)
+        rc, out, err = c.run_bin(binary, stdin="\n".join(inp) + "\n", timeout=1800 if patient else 600,
+                                 env={"VERIF_SM_PATIENT": "1"} if patient else None)
         cur = None
         for line in out.splitlines():
             if line.startswith("T "):
@@ -154,8 +159,21 @@ def run_harness(c, binary, cases, traces):
         if site == 99:
             c.notes.append("unrecognised panic in trace %d: %s" % (cur, err[:1200]))
         blocked = results[cur] and results[cur][-1][0] and results[cur][-1][0][-1] == [23]
+        k_dead = len(results[cur])
+        at_stop = k_dead >= len(traces[cur]) or traces[cur][k_dead][0][0] == 2
         if blocked:
             pass
+        elif site in (9, 10) and at_stop:
+            # SHUTDOWN manifestation of the known finding jump-ahead-after-round-advance-panics (C08, witness w7): the
+            # view update that advanced the round (nil precommit quorum) also carried a jump-ahead; the kernel is blocked
+            # in the round entrance of the advance, and when the context is cancelled (Stop event, or the harness
+            # stopping the machine at the end of the history) the rest of handleViewUpdate still runs and panics in
+            # handleJumpAhead. The process is gone (its in-memory stores too), so the history ends here: it is
+            # compared up to and including the Stop (which shows nothing else), the rest is not run.
+            if k_dead < len(traces[cur]):
+                results[cur].append(([], []))
+            c.sm_cut[cur] = len(results[cur])
+            c.sm_shutdown_panics = getattr(c, "sm_shutdown_panics", 0) + 1
         elif site is not None:
             # the deferred close(kernelDone) of a panicking kernel may have been reported as HALT
             # just before the process died: then that (last printed) event is the panicking one
@@ -279,7 +297,7 @@ def coq_impl(impl):
     return "[" + "; ".join("(%s, %s)" % (coq_ll(a), coq_ll(b)) for a, b in impl) + "]"
 
 
-def judge_walked(c, tag, cases, impls, events_of=None):
+def judge_walked(c, tag, cases, impls, events_of=None, cuts=None):
     """coqc run B: correspondence + monitors on the implementation's observations (and on the model's).
     Returns list of dicts name->bool (model monitor values under 'model:<name>').
     events_of(k, sg, cs): Gallina expression of the k-th history's events (default: the model walk)."""
@@ -287,6 +305,9 @@ def judge_walked(c, tag, cases, impls, events_of=None):
     shard = 40
     if events_of is None:
         events_of = lambda k, sg, cs: "(gen_trace %s %s)" % ("true" if sg else "false", coq_list(cs))
+    if cuts:
+        inner = events_of
+        events_of = lambda k, sg, cs: ("(firstn %d%%nat %s)" % (cuts[k], inner(k, sg, cs))) if k in cuts else inner(k, sg, cs)
     for si in range(0, len(cases), shard):
         body = EVAL_HEADER + "Definition res := Eval vm_compute in [\n%s].\nPrint res.\n" % ";\n".join(
             "judge %s %s %s" % (events_of(si + k, sg, cs), "true" if sg else "false", coq_impl(impls[si + k]))
@@ -370,6 +391,28 @@ def run_scenarios(c, binary, tag, clauses, classify):
     flags = judge_walked(c, tag + "_scen", cases, impl, events_of=lambda k, sg, cs: "(nth %d scenarios [])" % k)
     if flags is None:
         return
+    ev_of = lambda idx: (lambda k, sg, cs: "(nth %d scenarios [])" % idx[k])
+    # same rule as for the walked histories: a scripted history that fails is run again (patiently) and counts only
+    # if it fails every time
+    pending = [i for i, fl in enumerate(flags)
+               if not fl["corr"] or first_diff(traces[i], impl[i]) is not None
+               or any(not fl[n] and fl.get("model:" + n, True) for n in clauses)]     # a failure the model predicts is no suspect
+    rerun, passed = len(pending), 0
+    for attempt in range(2):
+        if not pending:
+            break
+        im2, _r = run_harness(c, binary, [cases[i] for i in pending], [traces[i] for i in pending], patient=True)
+        fl2 = judge_walked(c, tag + "_scen_again", [cases[i] for i in pending], im2, events_of=ev_of(list(pending)))
+        if fl2 is None:
+            break
+        still = []
+        for k, i in enumerate(pending):
+            if fl2[k]["corr"] and first_diff(traces[i], im2[k]) is None and all(fl2[k][n] for n in clauses):
+                impl[i], flags[i] = im2[k], fl2[k]
+                passed += 1
+            else:
+                still.append(i)
+        pending = still
     bad = []
     for i, fl in enumerate(flags):
         d = first_diff(traces[i], impl[i])
@@ -388,10 +431,59 @@ def run_scenarios(c, binary, tag, clauses, classify):
                           "model and real state machine differ on scripted histories %s; first: scenario %d event %d" % ([b[0] for b in bad], i, d),
                           {"harness_input": harness_input(1, traces[i], d), "how": "bin/h_sm < replay input",
                            "trace": render(traces[i], impl[i], d)[-8:]})
-    c.coverage["scripted_histories"] = {"run": len(traces), "events": sum(len(t) for t in traces), "disagreements": len(bad)}
+    c.coverage["scripted_histories"] = {"run": len(traces), "events": sum(len(t) for t in traces), "disagreements": len(bad),
+                                        "rerun_after_a_failure": rerun, "passed_on_rerun": passed}
 
 
-def walked(c, pid, binary, tag, n_traces, steps, clauses, classify):
+def stale_elapse_run(c, binary, cases, traces):
+    """C12: a cancelled step timer is never acted upon. Every history is run once more on the real state machine with a
+    pseudo-event (harness command 30) after each event in which the MODEL cancels an outstanding timer: the channel of
+    that cancelled timer is closed, as if the timer had fired concurrently with its cancellation and the kernel's select
+    had taken the other branch. The model never believes in a timer that is not outstanding (Properties/C12smInv.v:
+    C12sm_believed_timer_is_outstanding), so the real state machine must show no reaction at all - no output, no panic -
+    and the rest of the history must go on as without the pseudo-event."""
+    aug, idx = [], []
+    for i, tr in enumerate(traces):
+        a, n = [], 0
+        for ev, mo in tr:
+            a.append((ev, mo))
+            if any(list(x)[0] == 17 and list(x)[-1] == 1 for x in mo[0]) and not any(list(x)[0] in (20, 21) for x in mo[0]):
+                a.append(((30,), ((), ())))
+                n += 1
+        if n:
+            aug.append(a)
+            idx.append(i)
+    if not aug:
+        c.coverage["stale_elapse"] = {"histories": 0, "pseudo_events": 0}
+        return
+    sub = [cases[i] for i in idx]
+    impl, _ = run_harness(c, binary, sub, aug)
+    bad = []
+    for k, tr in enumerate(aug):
+        d = first_diff(tr, impl[k])
+        if d is not None and tr[d][0][0] == 30 and not (d < len(impl[k]) and impl[k][d][0] == [[22]] and not impl[k][d][1]):
+            bad.append((k, d))
+    confirmed = []
+    for k, d in bad[:6]:      # a loaded machine must not turn into an alarm: confirm patiently
+        im2, _ = run_harness(c, binary, [sub[k]], [aug[k]], patient=True)
+        d2 = first_diff(aug[k], im2[0])
+        if d2 is not None and aug[k][d2][0][0] == 30 and not (d2 < len(im2[0]) and im2[0][d2][0] == [[22]] and not im2[0][d2][1]):
+            confirmed.append((k, d2, im2[0]))
+    for k, d, im in confirmed[:1]:
+        rows = render(aug[k], im, d)
+        for row, (ev, _) in zip(rows, aug[k]):
+            if ev[0] == 30:
+                row["event"] = "STALE ELAPSE of the timer cancelled by the previous event"
+        c.report("stale-elapse-acted-upon",
+                 "the real state machine reacts to the elapse of a step timer it had CANCELLED (the timer's channel is closed after "
+                 "the cancel call, as when the timer fires concurrently with the cancellation): a cancelled timer is still listened to",
+                 {"signer": sub[k][0], "how": "bin/h_sm < replay input (line '30' = stale elapse)",
+                  "harness_input": harness_input(sub[k][0], aug[k], d), "trace": rows[-6:]})
+    c.coverage["stale_elapse"] = {"histories": len(aug), "pseudo_events": sum(1 for tr in aug for ev, _ in tr if ev[0] == 30),
+                                  "reactions_first_run": len(bad), "reactions_confirmed": len(confirmed)}
+
+
+def walked(c, pid, binary, tag, n_traces, steps, clauses, classify, stale=False):
     """Full correspondence + monitor evaluation. `clauses`: monitor names that decide property `pid`;
     `classify(name, trace_events) -> key` gives the finding key of a failing clause."""
     r = correspondence(c, tag, n_traces, steps)
@@ -399,29 +491,48 @@ def walked(c, pid, binary, tag, n_traces, steps, clauses, classify):
         return
     cases, traces = r["cases"], r["traces"]
     impl, restarts = run_harness(c, binary, cases, traces)
-    flags = judge_walked(c, tag, cases, impl)
+    cuts = dict(c.sm_cut)
+    for i, kk in cuts.items():
+        traces[i] = traces[i][:kk]
+    if cuts:
+        key7 = WITNESS_KEYS[7][1]
+        c.coverage["histories_ended_by_a_shutdown_panic"] = len(cuts)
+        if pid == "C08":
+            i0 = sorted(cuts)[0]
+            c.report(key7, WITNESS_KEYS[7][2] + " - here at shutdown: the context is cancelled while the round entrance of the advance is pending",
+                     {"signer": cases[i0][0], "how": "bin/h_sm < replay input (the process dies while stopping)",
+                      "harness_input": harness_input(cases[i0][0], traces[i0]), "trace": render(traces[i0], impl[i0])[-6:]})
+    flags = judge_walked(c, tag, cases, impl, cuts=cuts)
     if flags is None:
         return
+    if stale:
+        stale_elapse_run(c, binary, cases, traces)
     # The harness drives a real multi-goroutine state machine: once in a few hundred histories (under load) an
     # observation is attributed to the wrong event. A history that disagrees with the model or fails a monitor is
-    # therefore run again, twice; it counts only if it fails every time (a deterministic defect does).
+    # therefore run again, up to three times (the last two with long waits); it counts only if it fails every time (a
+    # deterministic defect does).
     suspects = [i for i, fl in enumerate(flags)
-                if not fl["corr"] or first_diff(traces[i], impl[i]) is not None or any(not fl[n] for n in clauses)]
+                if not fl["corr"] or first_diff(traces[i], impl[i]) is not None
+                or any(not fl[n] and fl.get("model:" + n, True) for n in clauses)]    # a failure the model predicts is no suspect
     flaky = 0
-    for i in suspects[:12]:
-        stands = True
-        for _ in range(2):
-            im2, _r = run_harness(c, binary, [cases[i]], [traces[i]])
-            fl2 = judge_walked(c, tag + "_again", [cases[i]], im2)
-            if fl2 is None:
-                break
-            ok_again = fl2[0]["corr"] and first_diff(traces[i], im2[0]) is None and all(fl2[0][n] for n in clauses)
-            if ok_again:
-                impl[i], flags[i], stands = im2[0], fl2[0], False
-                break
-        if not stands:
-            flaky += 1
-    c.coverage["histories_rerun_after_a_failure"] = len(suspects[:12])
+    pending = suspects[:60]
+    for attempt in range(3):
+        if not pending:
+            break
+        im2, _r = run_harness(c, binary, [cases[i] for i in pending], [traces[i] for i in pending], patient=(attempt > 0))
+        cuts2 = {k: cuts[i] for k, i in enumerate(pending) if i in cuts}
+        fl2 = judge_walked(c, tag + "_again", [cases[i] for i in pending], im2, cuts=cuts2)
+        if fl2 is None:
+            break
+        still = []
+        for k, i in enumerate(pending):
+            if fl2[k]["corr"] and first_diff(traces[i], im2[k]) is None and all(fl2[k][n] for n in clauses):
+                impl[i], flags[i] = im2[k], fl2[k]
+                flaky += 1
+            else:
+                still.append(i)
+        pending = still
+    c.coverage["histories_rerun_after_a_failure"] = len(suspects[:60])
     c.coverage["histories_that_passed_on_rerun"] = flaky
     n_events = sum(len(t) for t in traces)
     evc, outc = {}, {}
@@ -448,7 +559,9 @@ def walked(c, pid, binary, tag, n_traces, steps, clauses, classify):
     monitor_failed = any(v[3] for v in c.violations)
     if bad_corr and not monitor_failed:
         i, d = bad_corr[0]
-        d = 0 if d is None else d
+        if os.environ.get("VERIF_DEBUG_DUMP"):
+            json.dump({"case": cases[i], "trace": traces[i], "impl": impl[i], "flags": flags[i], "d": d}, open(os.environ["VERIF_DEBUG_DUMP"], "w"))
+        d = (len(traces[i]) - 1) if d is None else d      # no positional difference: the whole history is the replay
         c.fail_obligation("correspondence Model/StateMachine.v vs tm/tmengine/internal/tmstate/statemachine.go",
                           "model and real state machine differ on %d of %d generated histories; first: trace %d event %d" % (len(bad_corr), len(traces), i, d),
                           {"signer": cases[i][0], "harness_input": harness_input(cases[i][0], traces[i], d),
